@@ -971,6 +971,9 @@ def transform_try_finally_stmt_async(
 
     # Normal case - no exception or return
     builder.activate_block(main_entry)
+    if ret_reg:
+        # Forget the value of an earlier 'return' that never completed.
+        builder.assign(ret_reg, builder.add(LoadErrorValue(builder.ret_types[-1], line)), line)
     builder.goto(finally_entry)
 
     # Return case
@@ -979,6 +982,8 @@ def transform_try_finally_stmt_async(
 
     # Exception case - need to catch to clear the error indicator
     builder.activate_block(err_handler)
+    if ret_reg:
+        builder.assign(ret_reg, builder.add(LoadErrorValue(builder.ret_types[-1], line)), line)
     # Catch the error to clear Python's error indicator
     builder.call_c(error_catch_op, [], line)
     # We're not going to use old_exc since it won't survive await
